@@ -184,10 +184,19 @@ class Poison:
 
 
 class SymStr(NativeModel):
-    """A python str built from symbolic parts (messages, derived names): opaque, equal only to itself."""
+    """A python str built from symbolic parts (messages, derived names, formatted lines): opaque, equal only to itself.
 
-    def __init__(self, parts):
+    Token model for formatted lines (C12): a string produced by `fmt.format(*args, **kwargs)` keeps its format
+    string and arguments; `.split()` yields its whitespace-separated tokens, where a symbolic field contributes
+    exactly one token - the field's value itself (assumption: float(format(v)) == v, names contain no blanks) -
+    and a concrete field contributes the tokens of its text; `.split(';')` cuts at the first ';' token;
+    `.encode()` is the identity.
+    """
+
+    def __init__(self, parts, fmt=None, args=(), kwargs=None, tokens=None):
         self.parts = tuple(parts)
+        self.fmt, self.args, self.kwargs = fmt, tuple(args), dict(kwargs or {})
+        self._tokens = tokens
 
     def __repr__(self):
         return "SymStr%r" % (self.parts,)
@@ -200,6 +209,58 @@ class SymStr(NativeModel):
 
     def format(self, *a, **k):
         return SymStr(self.parts + a + tuple(k.values()))
+
+    def encode(self, *a, **k):
+        return self
+
+    def tokens(self):
+        if self._tokens is not None:
+            return list(self._tokens)
+        if self.fmt is None:
+            raise Unsupported("tokens of an unstructured symbolic string")
+        import string
+        out = []
+        auto = 0
+        for lit, field, spec, conv in string.Formatter().parse(self.fmt):
+            out.extend(_split_keep_semicolon(lit))
+            if field is None:
+                continue
+            if field == "":
+                v = self.args[auto]
+                auto += 1
+            elif field.isdigit():
+                v = self.args[int(field)]
+            else:
+                v = self.kwargs[field]
+            if isinstance(v, SV):
+                out.append(v)
+            elif isinstance(v, SymStr):
+                out.extend(v.tokens())
+            else:
+                out.extend(_split_keep_semicolon(format(v, spec or "")))
+        return out
+
+    def split(self, sep=None, maxsplit=-1):
+        toks = self.tokens()
+        if sep is None:
+            return toks
+        if sep == ";":
+            for i, t in enumerate(toks):
+                if isinstance(t, str) and t.startswith(";"):
+                    rest = [t[1:]] if len(t) > 1 else []
+                    return [SymStr((), tokens=toks[:i]), SymStr((), tokens=rest + toks[i + 1:])]
+                if isinstance(t, str) and ";" in t:
+                    a, b = t.split(";", 1)
+                    return [SymStr((), tokens=toks[:i] + [a]), SymStr((), tokens=([b] if b else []) + toks[i + 1:])]
+            return [SymStr((), tokens=toks)]
+        raise Unsupported("split of a symbolic string on %r" % (sep,))
+
+    def strip(self, *a):
+        return self
+
+
+def _split_keep_semicolon(text):
+    return text.split()
 
 
 class Leaf(NativeModel):
